@@ -2,7 +2,7 @@
 C14 — Only sshuttle's own marked lines in the hosts file ever change.
 
 Property theorems only; helper lemmas are in `Lemmas/HostsText.lean`, `HostsLines.lean`,
-`HostsMarker.lean`, `HostsRun.lean`, `HostsSession.lean`, `HostsSerial.lean`.
+`HostsMarker.lean`, `HostsRun.lean`, `HostsSession.lean`, `HostsSerial.lean`, `HostsHistory.lean`.
 
 Vocabulary (`Spec/HostsFile.lean`): `lines c` are the lines of a file with stored content `c`
 (terminators normalised, white space at the very end of the file is not a line); `Own p l`:
@@ -11,7 +11,7 @@ lines of `ls` not own / own to `p`; `expected p hm before = foreign p before ++ 
 `finish pr fs`: the file system after running `pr` to its end; `after k pr fs`: after its
 first `k` file-system operations (a crash at point `k`).
 -/
-import SshuttleModel.Lemmas.HostsSerial
+import SshuttleModel.Lemmas.HostsHistory
 
 namespace Sshuttle.Hosts
 
@@ -85,6 +85,26 @@ theorem C14_own_lines_own (p : Nat) (hm : HostMap) : ∀ l ∈ hostLines p hm, O
   intro l hl
   obtain ⟨e, _, rfl⟩ := mem_hostLines hl
   exact (ownB_iff _ _).mp (hostLine_own p e)
+
+/-! ## 2b. The marker match is exact -/
+
+/-- **An instance on port `p` recognises exactly the lines marked for `p`.**  For a line made of
+arbitrary text, the marker of port `q`, and arbitrary text (no further `#`), the match the code
+performs (`line.find('# sshuttle-firewall-%d AUTOCREATED' % p) >= 0`, regenerated from the
+source and pinned in `Code/Hosts.lean`) succeeds iff `p = q` — for all `p`, `q`, in particular
+never when the decimal of one port is a prefix of the other's (1230 / 12300), because the
+digits must be followed by ` AUTOCREATED`. -/
+theorem C14_marker_match_exact (p q : Nat) (head tail : Text) (hh : 35 ∉ head) (ht : 35 ∉ tail) :
+    ownB p (head ++ marker q ++ tail) = true ↔ p = q :=
+  ⟨marker_match_exact hh ht, fun e => e ▸ marker_in_own p head tail⟩
+
+example : (35 : Nat) ∉ ([49, 46, 50, 32, 104, 32] : Text) ∧ (35 : Nat) ∉ ([] : Text) := by decide
+
+/-- the decimal-prefix instance, spelled out: port 1230 does not claim a line of port 12300 or
+vice versa, whatever host it names -/
+theorem C14_marker_prefix_ports (e : Text × Text) (h1 : 35 ∉ e.1) (h2 : 35 ∉ e.2) :
+    ownB 1230 (hostLine 12300 e) = false ∧ ownB 12300 (hostLine 1230 e) = false :=
+  ⟨hostLine_not_own (by decide) h1 h2, hostLine_not_own (by decide) h1 h2⟩
 
 /-! ## 3. Atomic replacement -/
 
@@ -161,6 +181,58 @@ theorem C14_session_restores_original (p : Nat) (fs : Fs) (us : List (Text × Te
   rw [this]
   exact lines_unlines (lines_trimmed _)
 
+/-! ## 4b. Whole histories of one port: updates, restores, a crash, recovery by a later session -/
+
+/-- **The lines of everybody else survive any history of one port.**  `ms` is any sequence of
+complete rewrites by port `p` — host updates in any order with repeats (A→B→A), restores
+(empty map), sessions that end normally or by an error (the clean-up is one more rewrite), later
+sessions on the same port — over any initial file system.  The lines not carrying `p`'s marker are
+then the same file, line for line and in order, as at the start, up to white space at the very
+end of the file (`EqEof`: they read back equal). -/
+theorem C14_history_foreign_lines (p : Nat) (fs : Fs) (ms : List HostMap) (hms : ∀ m ∈ ms, LineMap m) :
+    EqEof (foreign p (lines ((rewrites p ms fs).content .hosts)))
+      (foreign p (lines (fs.content .hosts))) :=
+  foreign_rewrites p ms hms fs
+
+/-- …and they are *exactly* the same list when the original non-own lines end in a non-blank
+line (`Trimmed`) — in particular whenever the file had no line of `p` at all. -/
+theorem C14_history_foreign_lines_exact (p : Nat) (fs : Fs) (ms : List HostMap)
+    (hms : ∀ m ∈ ms, LineMap m) (hT : Trimmed (foreign p (lines (fs.content .hosts)))) :
+    foreign p (lines ((rewrites p ms fs).content .hosts)) = foreign p (lines (fs.content .hosts)) :=
+  foreign_rewrites_exact p ms hms fs hT
+
+example : Trimmed (foreign 10 (lines (some [97, 10, 35, 32, 99, 10]))) := by
+  have : foreign 10 (lines (some [97, 10, 35, 32, 99, 10])) = lines (some [97, 10, 35, 32, 99, 10]) := by
+    decide
+  rw [this]; exact lines_trimmed _
+
+/-- **Crash at any point of any rewrite, then recovery.**  After any history `ms1`, the helper
+dies after the first `k` file-system operations of a further rewrite (any `k`, any map — this also
+covers an operation refused by the environment, which leaves the state of the operations before
+it), leaving its temporary behind; then any further history `ms2` follows (the clean-up of the
+same helper, or a later session on the same port).  The lines of everybody else are still the same
+file.  `Apart`: in the initial file system the temporary is not another name of the hosts file. -/
+theorem C14_history_crash_recovery (p : Nat) (fs : Fs) (ha : Apart fs p)
+    (ms1 : List HostMap) (h1 : ∀ m ∈ ms1, LineMap m) (hm : HostMap) (hhm : LineMap hm) (k : Nat)
+    (ms2 : List HostMap) (h2 : ∀ m ∈ ms2, LineMap m) :
+    EqEof (foreign p (lines ((rewrites p ms2 (after k (rewrite hm p) (rewrites p ms1 fs))).content .hosts)))
+      (foreign p (lines (fs.content .hosts))) := by
+  have hA := foreign_rewrites p ms2 h2 (after k (rewrite hm p) (rewrites p ms1 fs))
+  have hC := foreign_rewrites p ms1 h1 fs
+  have hB : EqEof (foreign p (lines ((after k (rewrite hm p) (rewrites p ms1 fs)).content .hosts)))
+      (foreign p (lines ((rewrites p ms1 fs).content .hosts))) := by
+    rcases after_rewrite hm p (rewrites p ms1 fs) (apart_rewrites p ms1 fs ha).tmpApart k with h | h
+    · rw [h]; rfl
+    · rw [h]; exact foreign_new_content p hm hhm _
+  exact hA.trans (hB.trans hC)
+
+/-- a file system with a hosts file and a stale temporary of port 10 satisfies `Apart` -/
+example : Apart ((Fs.empty.create .hosts [97, 10] newPerm).create (.tmp 10) [98] newPerm) 10 := by
+  refine ⟨?_, ?_, ?_⟩ <;> intro i h1
+  · simp [Fs.create, Fs.empty] at h1 ⊢; omega
+  · simp [Fs.create, Fs.empty] at h1 ⊢; omega
+  · intro h2; simp [Fs.create, Fs.empty] at h1 h2; omega
+
 /-! ## 5. Instances side by side, rewrites not overlapping -/
 
 /-- **Any history of several instances whose rewrites do not overlap in time.**  `P` is the set
@@ -193,6 +265,61 @@ example :
   · subst hx; decide
   · subst hx; decide
   · rcases hx with rfl | rfl <;> decide
+
+/-- **Only what each instance published last matters, not the order.**  Two non-overlapping
+histories in which every port ends with the same map leave the same other lines and the same
+block per port. -/
+theorem C14_serial_order_irrelevant (P : List Nat) (fs : Fs) (es1 es2 : List (Nat × HostMap))
+    (hP1 : ∀ e ∈ es1, e.1 ∈ P) (hs1 : ∀ e ∈ es1, SaneMap e.2)
+    (hP2 : ∀ e ∈ es2, e.1 ∈ P) (hs2 : ∀ e ∈ es2, SaneMap e.2)
+    (hclean : ∀ r ∈ P, ∀ l ∈ lines (fs.content .hosts), ownB r l = false)
+    (hsame : ∀ r ∈ P, curMaps es1 (fun _ => []) r = curMaps es2 (fun _ => []) r) :
+    base P (lines ((serial es1 fs).content .hosts)) = base P (lines ((serial es2 fs).content .hosts)) ∧
+    ∀ r ∈ P, block r (lines ((serial es1 fs).content .hosts)) =
+      block r (lines ((serial es2 fs).content .hosts)) := by
+  obtain ⟨a1, b1⟩ := C14_serial_instances P fs es1 hP1 hs1 hclean
+  obtain ⟨a2, b2⟩ := C14_serial_instances P fs es2 hP2 hs2 hclean
+  exact ⟨a1.trans a2.symm, fun r hr => by rw [b1 r hr, b2 r hr, hsame r hr]⟩
+
+/-- **Two instances on different ports that do not overlap in time commute**: whichever rewrites
+first, the other lines are the original ones and each instance's block is its own host lines
+(the F10 finding below is about *overlapping* rewrites only). -/
+theorem C14_two_instances_commute (fs : Fs) (p q : Nat) (hpq : p ≠ q) (hp hq : HostMap)
+    (hsp : SaneMap hp) (hsq : SaneMap hq)
+    (hclean : ∀ r ∈ [p, q], ∀ l ∈ lines (fs.content .hosts), ownB r l = false) :
+    let pq := finish (rewrite hq q) (finish (rewrite hp p) fs)
+    let qp := finish (rewrite hp p) (finish (rewrite hq q) fs)
+    base [p, q] (lines (pq.content .hosts)) = base [p, q] (lines (qp.content .hosts)) ∧
+    block p (lines (pq.content .hosts)) = block p (lines (qp.content .hosts)) ∧
+    block q (lines (pq.content .hosts)) = block q (lines (qp.content .hosts)) ∧
+    block p (lines (pq.content .hosts)) = hostLines p hp ∧
+    block q (lines (pq.content .hosts)) = hostLines q hq := by
+  intro pq qp
+  have hP1 : ∀ e ∈ [(p, hp), (q, hq)], e.1 ∈ [p, q] := by
+    intro e he; simp at he; rcases he with rfl | rfl <;> simp
+  have hP2 : ∀ e ∈ [(q, hq), (p, hp)], e.1 ∈ [p, q] := by
+    intro e he; simp at he; rcases he with rfl | rfl <;> simp
+  have hs1 : ∀ e ∈ [(p, hp), (q, hq)], SaneMap e.2 := by
+    intro e he; simp at he; rcases he with rfl | rfl <;> assumption
+  have hs2 : ∀ e ∈ [(q, hq), (p, hp)], SaneMap e.2 := by
+    intro e he; simp at he; rcases he with rfl | rfl <;> assumption
+  have hsame : ∀ r ∈ [p, q], curMaps [(p, hp), (q, hq)] (fun _ => []) r =
+      curMaps [(q, hq), (p, hp)] (fun _ => []) r := by
+    intro r hr
+    simp only [List.mem_cons, List.not_mem_nil, or_false] at hr
+    have hqp : q ≠ p := fun e => hpq e.symm
+    rcases hr with rfl | rfl <;> simp [curMaps, hpq, hqp]
+  obtain ⟨hb, hbl⟩ := C14_serial_order_irrelevant [p, q] fs _ _ hP1 hs1 hP2 hs2 hclean hsame
+  obtain ⟨_, hblk⟩ := C14_serial_instances [p, q] fs [(p, hp), (q, hq)] hP1 hs1 hclean
+  have hqp : q ≠ p := fun e => hpq e.symm
+  refine ⟨hb, hbl p (by simp), hbl q (by simp), ?_, ?_⟩
+  · have := hblk p (by simp); simpa [curMaps, hpq, serial] using this
+  · have := hblk q (by simp); simpa [curMaps, hqp, serial] using this
+
+example : (10 : Nat) ≠ 100 ∧ SaneMap [([104], [49])] ∧
+    (∀ r ∈ [10, 100], ∀ l ∈ lines (some [35, 32, 99, 10]), ownB r l = false) := by
+  refine ⟨by decide, ?_, by decide⟩
+  intro e he; simp at he; subst he; decide
 
 /-! ## 6. Instances side by side, rewrites overlapping: FALSE of the code -/
 
